@@ -39,6 +39,8 @@ type c15Mod struct {
 	pubGlob  map[string]bool
 	imports  map[string][]string // from module -> items (functions or globals)
 	impOrder []string
+	events    []string // `event fn` definitions (never importable)
+	typeFirst []string // modules from which main imports only the type first, in a separate import statement placed before all others
 	factories []string // globals for which a pub function mk_<global>() returns a closure that marks and returns it
 	hasApply  bool     // pub fn apply_<mod>(cb: fn() -> str) -> str { cb() }
 }
@@ -253,6 +255,10 @@ func c15Gen(seed int, illegal int) *c15Graph {
 		}
 	}
 	var late []string // statements of main that come after the imported globals have been printed
+	// a type-only import that reaches a module before any import of its functions or globals
+	if r.Intn(3) == 0 {
+		main.typeFirst = append(main.typeFirst, g.mods[1+r.Intn(nlib)].name)
+	}
 	// closures crossing a module boundary: a closure made in a library and called by main must use
 	// the library's globals; a closure made in main and called by a library must use main's
 	for i := 1; i < len(g.mods); i++ {
@@ -381,6 +387,10 @@ func c15Gen(seed int, illegal int) *c15Graph {
 			main.addImport(a.name, "cyca")
 		}
 		g.illegal = "cycle3"
+	case 8: // an event function is not pub
+		lib.events = append(lib.events, "onev")
+		main.addImport(lib.name, "onev")
+		g.illegal = "event-function"
 	case 6:
 		main.addImport("main", "main")
 		g.illegal = "self-import"
@@ -392,6 +402,12 @@ func (g *c15Graph) sources() Program {
 	p := Program{Entry: "main", Modules: map[string]string{}}
 	for _, m := range g.mods {
 		var b strings.Builder
+		for _, tm := range m.typeFirst {
+			fmt.Fprintf(&b, "import { type T%s } from %s;\n", tm, tm)
+		}
+		if m.name != "main" {
+			fmt.Fprintf(&b, "pub type T%s = int;\n", m.name)
+		}
 		for _, from := range m.impOrder {
 			fmt.Fprintf(&b, "import { %s } from %s;\n", strings.Join(m.imports[from], ", "), from)
 		}
@@ -434,6 +450,9 @@ func (g *c15Graph) sources() Program {
 			}
 			b.WriteString("}\n")
 		}
+		for _, ev := range m.events {
+			fmt.Fprintf(&b, "event fn %s() { println(\"%s.%s\"); }\n", ev, m.name, ev)
+		}
 		for _, gn := range m.factories {
 			fmt.Fprintf(&b, "pub fn mk%s%s() -> fn() -> str {\n    fn() -> str { %s = %s + \"+\"; %s }\n}\n", gn, m.name, gn, gn, gn)
 		}
@@ -441,6 +460,9 @@ func (g *c15Graph) sources() Program {
 			fmt.Fprintf(&b, "pub fn apply%s(cb: fn() -> str) -> str { cb() }\n", m.name)
 		}
 		b.WriteString("fn main() {\n")
+		for _, tm := range m.typeFirst {
+			fmt.Fprintf(&b, "    let tv%s: T%s = 1;\n    println(\"type\", \"%s\", tv%s);\n", tm, tm, tm, tm)
+		}
 		if m.name == "main" {
 			for _, st := range g.mainBody {
 				kind, arg, _ := strings.Cut(st, ":")
@@ -506,6 +528,9 @@ func (g *c15Graph) expected() []string {
 		}
 	}
 	main := g.mods[0]
+	for _, tm := range main.typeFirst {
+		out = append(out, fmt.Sprintf("type %s 1", tm))
+	}
 	for _, st := range g.mainBody {
 		kind, arg, _ := strings.Cut(st, ":")
 		switch kind {
@@ -671,7 +696,7 @@ func planC15(t *testing.T, tier string, seed uint64) ([]RunSpec, error) {
 		gseed := int(simrt.Mix(seed, uint64(gi)) % 1000000)
 		for backend := 0; backend < 2; backend++ {
 			add(map[string]int{"g": gseed, "backend": backend, "illegal": 0}, nil, orders)
-			ill := 1 + gi%7
+			ill := 1 + gi%8
 			add(map[string]int{"g": gseed, "backend": backend, "illegal": ill}, nil, 1+orders/4)
 			if gi%4 == 1 {
 				add(map[string]int{"g": gseed, "backend": backend, "illegal": 100}, nil, 1+orders/2)
